@@ -369,7 +369,7 @@ class StoreWorld:
             self.op(f'{cl.name}: {self.describe(op)}')
             try:
                 getattr(self, 'c_' + op['kind'])(cl, op)
-            except core.ThreadKilled:
+            except (core.ThreadKilled, core.HarnessError):
                 raise
             except Exception as e:  # noqa  reported by the main thread
                 op['exc'] = e
